@@ -1,5 +1,6 @@
 import Eru.Store.ProofsDeploy
 import Eru.Store.ProofsKV
+import Eru.Store.ProofsDeployRef
 /-
 C13 (store side) — deploy-status counts and in-progress markers.
 
@@ -98,5 +99,39 @@ theorem add_workload_fail_unchanged (fl : Flavour) (s : St) (w : WlRec)
 theorem create_processing_duplicate (s : St) (a e n i : String) (c : Int)
     (h : s.kv.has (procKey a e n i) = true) : createProcessing s a e n i c = .error .keyExists := by
   simp [createProcessing, batchCreate, h]
+
+
+/-! ### the reference store implements the transition system -/
+
+/-- **deploy_status_is_sum**: what `GetDeployStatus` returns for a node is exactly the number of
+    recorded workloads plus the sum of the markers (the `status` of `Eru.Store.Deploy`). -/
+theorem deploy_status_is_sum (s : St) (a e n : String) :
+    countOf (getDeployStatus s a e) n = deployed s a e n + inProgress s a e n :=
+  getDeployStatus_exact s a e n
+
+/-- **create_marker_adds_planned**: in every reachable state, a successful `CreateProcessing`
+    raises the status of its node by the planned count and of no other node (`DOp.create`). -/
+theorem create_marker_adds_planned (fl : Flavour) (ops : List Op) (a e n i : String) (c : Int)
+    (ha : a ≠ "") (he : e ≠ "") (s' : St)
+    (h : createProcessing (run fl St.empty ops).1 a e n i c = .ok s') (n2 : String) :
+    deployed s' a e n2 + inProgress s' a e n2 =
+      deployed (run fl St.empty ops).1 a e n2 + inProgress (run fl St.empty ops).1 a e n2 + (if n = n2 then c else 0) := by
+  have := createProcessing_effect (wf_run fl ops _ wf_empty) a e n i c ha he h n2
+  omega
+
+/-- **add_with_marker_keeps_status**: in every reachable state, adding a workload with a fresh id
+    under its marker moves one unit from "in progress" to "recorded" in a single step: the
+    status reported for every node is unchanged (`DOp.add`). -/
+theorem add_with_marker_keeps_status (fl : Flavour) (ops : List Op) (w : WlRec) (a e x i : String) (c : Int)
+    (exp : Option Nat) (ha : a ≠ "") (he : e ≠ "") (s' : St)
+    (hname : parseWorkloadName w.name = .ok (a, e, x))
+    (hmark : KV.get (run fl St.empty ops).1.kv (procKey a e w.node i) = some { val := .cnt c, exp := exp })
+    (hfresh : ∀ k ∈ (wlData w a e).map (·.1), KV.get (run fl St.empty ops).1.kv k = none)
+    (h : addWorkload (run fl St.empty ops).1 w (some (a, e, w.node, i)) = .ok s') (n2 : String) :
+    deployed s' a e n2 = deployed (run fl St.empty ops).1 a e n2 + (if w.node = n2 then 1 else 0) ∧
+    deployed s' a e n2 + inProgress s' a e n2 =
+      deployed (run fl St.empty ops).1 a e n2 + inProgress (run fl St.empty ops).1 a e n2 := by
+  have := addWorkload_marker_effect (wf_run fl ops _ wf_empty) w a e x i c exp ha he hname hmark hfresh h n2
+  exact ⟨this.1, this.2.2⟩
 
 end Eru.Props.C13
